@@ -11,7 +11,12 @@
 
 using namespace sim;
 
-namespace sim { int LogDriverMain(int argc, char** argv); }
+namespace sim { RunResult RunLogChain(Tape& tape, const std::string& profile, bool thorough); }
+
+static RunResult RunAny(Tape& t, const Profile& prof, const std::string& profile, const std::string& tier) {
+  if (profile == "C08" || profile == "C09") return RunLogChain(t, profile, tier == "thorough");
+  return RunOne(t, prof);
+}
 
 static uint64_t RunSeed(uint64_t verif_seed, uint64_t idx) {
   uint64_t x = verif_seed;
@@ -123,13 +128,13 @@ static bool HasViolation(const RunResult& rr, const std::string& prop, const std
 
 // Greedy tape minimisation: drop tail blocks, zero values, keeping the same
 // violation class of the same property.
-static Tape Shrink(const Tape& orig, const Profile& prof, const std::string& prop, const std::string& cls, int budget, int* reruns) {
+static Tape Shrink(const Tape& orig, const Profile& prof, const std::string& profile, const std::string& tier, const std::string& prop, const std::string& cls, int budget, int* reruns) {
   Tape best = orig;
   best.replay = true;
   auto still = [&](Tape& cand) {
     (*reruns)++;
     cand.replay = true;
-    RunResult rr = RunOne(cand, prof);
+    RunResult rr = RunAny(cand, prof, profile, tier);
     return HasViolation(rr, prop, cls);
   };
   bool progress = true;
@@ -162,7 +167,6 @@ int main(int argc, char** argv) {
   GlobalInit();
   if (argc < 2) { fprintf(stderr, "usage: simninja run|replay|shrink|logdrv ...\n"); return 2; }
   std::string cmd = argv[1];
-  if (cmd == "logdrv") return LogDriverMain(argc - 1, argv + 1);
   std::string profile = "C01", tier = "quick", outdir = "/tmp";
   uint64_t seed = 1, first = 0, count = 1;
   std::string file;
@@ -187,7 +191,7 @@ int main(int argc, char** argv) {
       Tape t;
       t.seed = RunSeed(seed, i);
       ArmWatchdog(60);
-      RunResult rr = RunOne(t, prof);
+      RunResult rr = RunAny(t, prof, profile, tier);
       ArmWatchdog(0);
       if (verbose) HPrintf("%s", rr.decoded.c_str());
       if (!rr.violations.empty()) {
@@ -208,7 +212,7 @@ int main(int argc, char** argv) {
     Profile prof = GetProfile(profile, tier == "thorough");
     if (cmd == "replay") {
       ArmWatchdog(60);
-      RunResult rr = RunOne(t, prof);
+      RunResult rr = RunAny(t, prof, profile, tier);
       ArmWatchdog(0);
       if (verbose) HPrintf("%s", rr.decoded.c_str());
       PrintRunLine(0, rr);
@@ -220,9 +224,9 @@ int main(int argc, char** argv) {
       if (!strcmp(argv[i], "--cls") && i + 1 < argc) cls = argv[i + 1];
     }
     int reruns = 0;
-    Tape m = Shrink(t, prof, prop, cls, 1500, &reruns);
+    Tape m = Shrink(t, prof, profile, tier, prop, cls, 1500, &reruns);
     m.replay = true;
-    RunResult rr = RunOne(m, prof);
+    RunResult rr = RunAny(m, prof, profile, tier);
     std::string out = file + ".min.json";
     WriteReplay(out, profile, tier, strtoull(JsonStr(doc, "seed").c_str(), nullptr, 10), 0, m, rr, true);
     HPrintf("{\"shrunk\":\"%s\",\"reruns\":%d,\"still\":%s}\n", out.c_str(), reruns, HasViolation(rr, prop, cls) ? "true" : "false");
